@@ -3,6 +3,7 @@ package goja
 import (
 	"fmt"
 	"go/ast"
+	"math"
 	"reflect"
 	"strings"
 
@@ -423,7 +424,11 @@ func (o *objectGoReflect) _valueOfInt() Value {
 }
 
 func (o *objectGoReflect) _valueOfUint() Value {
-	return intToValue(int64(o.fieldsValue.Uint()))
+	if u := o.fieldsValue.Uint(); u <= math.MaxInt64 {
+		return intToValue(int64(u))
+	} else {
+		return floatToValue(float64(u))
+	}
 }
 
 func (o *objectGoReflect) _valueOfBool() Value {
